@@ -49,6 +49,7 @@ def run(tier):
     from . import tz_jobs as J
     sizes = [(2, 1), (2, 2), (3, 2), (4, 2)] if tier == "quick" else [(2, 2), (3, 3), (4, 3), (5, 3), (6, 2), (8, 2)]
     jobs = [("BreakTime:N=%d,T=%d" % (n, t), job_breaktime, {"N": n, "T": t}) for n, t in sizes]
+    jobs += [("TransOffset:%s" % f, job_transoffset, {"form": f, "N": 0, "T": 0}) for f in ("J", "N", "M")]
     return J.run_property("C01", tier, jobs, {"BreakTime": "break"},
         "SMT over all int64 instants, all hint values and all well-formed tables of the stated sizes.",
         ["table sizes N (transitions) x T (types): %s; every int64 instant, every hint value, every table content satisfying WF" % sizes],
@@ -56,3 +57,47 @@ def run(tier):
 
 if __name__ == "__main__":
     sys.exit(run(sys.argv[1] if len(sys.argv) > 1 else "quick"))
+
+# ------------------------------------------------------------------------------------------ POSIX footer rule -> offset within the year
+def job_transoffset(form, N=0, T=0):
+    """real IR of TransOffset(leap_year, jan1_weekday, PosixTransition) for EVERY rule of the given date form, both kinds of
+    year, all seven weekdays of January 1 and every rule time within +-167:59:59, against the POSIX rule evaluated by search
+    over the month's days (no kMonthOffsets trick, no closed form for 'last week')"""
+    from spec import cal
+    from engine.smt import fmod, fdiv
+    mod = tz.module()
+    ex = symex.Executor(mod, tlimit_ms=120000)
+    ex.bv_first = True
+    TO = build.find_func(mod, r"anonymous namespace\)::TransOffset\(")
+    def h(ex, st):
+        leap = ex.input("leap", 1); j1 = ex.input("jan1_weekday", 32, 0, 6)
+        toff = ex.input("time", 64, -(167 * 3600 + 3599), 167 * 3600 + 3599)
+        pt = ex.new_obj(st, 24, "PosixTransition")
+        fmtv = {"J": 0, "N": 1, "M": 2}[form]
+        ex.store_raw(st, Ptr(pt.obj, 0), 4, fmtv)
+        ex.store_raw(st, Ptr(pt.obj, 16), 8, toff)
+        lp = smt.b2i(leap)
+        if form == "J":
+            n = ex.input("n", 64, 1, 365); ex.store_raw(st, Ptr(pt.obj, 8), 8, n)
+            # Jn: day n of the year, never counting February 29: n-1 days after Jan 1, plus the leap day once March has begun
+            days = add(sub(n, 1), smt.ite(and_(leap, ge(n, 60)), 1, 0))
+        elif form == "N":
+            n = ex.input("n", 64, 0, 365); ex.store_raw(st, Ptr(pt.obj, 8), 8, n)
+            days = n
+        else:
+            m = ex.input("m", 8, 1, 12); w = ex.input("w", 8, 1, 5); d = ex.input("d", 8, 0, 6)
+            ex.store_raw(st, Ptr(pt.obj, 8), 1, m); ex.store_raw(st, Ptr(pt.obj, 9), 1, w); ex.store_raw(st, Ptr(pt.obj, 10), 1, d)
+            doy0 = add(cal.table(cal.CUM, m), smt.ite(and_(leap, gt(m, 2)), 1, 0))            # 0-based day of year of the 1st of month m
+            dim = add(cal.table(cal.DIM, m), smt.ite(and_(leap, eq(m, 2)), 1, 0))
+            wd1 = fmod(add(j1, doy0), 7)                                                     # weekday of the 1st (0 = Sunday)
+            first = add(doy0, fmod(sub(d, wd1), 7))                                          # first day of the month falling on weekday d
+            occ = [add(first, 7 * k) for k in range(5)]
+            nth = add(first, mul(sub(w, 1), 7))
+            last = occ[0]
+            for k in range(1, 5): last = smt.ite(lt(occ[k], add(doy0, dim)), occ[k], last)
+            days = smt.ite(eq(w, 5), last, nth)
+        want = add(mul(days, 86400), toff)
+        def k(st, rv):
+            ex.prove(st, eq(rv, want), "TransOffset(%s form) == 86400 * (day of the year the POSIX rule designates) + rule time" % form)
+        ex.call(st, TO, [leap, j1, pt], k)
+    return ex.execute(h)
